@@ -16,6 +16,7 @@ source prefix; compositions of up to 3 stages against the composed bound f1(f2(f
 from __future__ import annotations
 
 import itertools
+import time
 
 from vlib import common as V
 
@@ -35,9 +36,48 @@ def src_value(table, c, i):
     return table[i % len(table)] + c * (i // len(table))
 
 
+# A source is (table, shift, shape).  Every shape yields one item per pull:
+#   "int"  the integer v_i                     (flat infinite list; the only shape the Coq model is evaluated on)
+#   "str"  a one-character string              (an infinite list made only of strings)
+#   "rows" the finite list [v, v+1, ...] of length v mod 4, empty rows included  (infinite list of finite chunks)
+#   "inf"  the infinite lazy list v, v+1, ...  (infinite list of infinite lists)
+INNER = 5            # an infinite inner lazy list is shown by its first INNER items
+PROBE = 64           # ... and recognised by having more than PROBE items
+
+
+class InfRow:
+    """Reference-side stand-in for an infinite inner list start, start+1, ..."""
+    def __init__(self, start):
+        self.start = start
+
+    def items(self):
+        return itertools.count(self.start)
+
+
+def src_ref(src, i):
+    table, c, shape = src
+    v = src_value(table, c, i)
+    if shape == "int":
+        return v
+    if shape == "str":
+        return chr(97 + v % 26)
+    if shape == "rows":
+        return [v + j for j in range(v % 4)]
+    return InfRow(v)
+
+
+def render(x):
+    """Reference values in the form force() gives to measured values."""
+    if isinstance(x, InfRow):
+        return ["∞"] + list(itertools.islice(x.items(), INNER))
+    if isinstance(x, list):
+        return [render(y) for y in x]
+    return x
+
+
 class Source:
-    def __init__(self, table, c):
-        self.table, self.c, self.pulls = table, c, 0
+    def __init__(self, src):
+        self.src, self.pulls = src, 0
 
     def gen(self):
         i = 0
@@ -45,8 +85,13 @@ class Source:
             self.pulls += 1
             if self.pulls > CAP:
                 raise Runaway()
-            yield src_value(self.table, self.c, i)
+            v = src_ref(self.src, i)
+            yield counting(v.start) if isinstance(v, InfRow) else v
             i += 1
+
+
+def src_json(src):
+    return {"table": list(src[0]), "shift": src[1], "shape": src[2]}
 
 
 # ----------------------------------------------------------------------------
@@ -75,29 +120,52 @@ def counting(o):
 
 
 INT_ONLY = {"map_affine", "cumsum", "deltas", "add_scalar", "add_scalar_l", "add_list", "multiply", "subtract",
-            "negate", "group", "truthy", "map_nth", "map_alt", "uniq_mask", "interleave_l", "interleave_r",
+            "negate", "group", "truthy", "map_nth", "map_alt", "interleave_l", "interleave_r",
             "interleave_fin", "interleave_fin_r", "add_fin_l", "add_fin_r", "mul_fin_l", "mul_fin_r", "sub_fin_l", "sub_fin_r",
             "union_fin_l", "filter_not_in"}
 ROWS_ONLY = {"vec_sum"}
-INT_OR_ROWS = {"uniquify", "union", "flatten1"}
-RELATIVE = {"filter_mod", "uniquify", "union", "truthy", "group", "flatten", "flatten1", "union_fin_l", "filter_not_in"}
+INT_OR_ROWS = {"flatten1"}
+COMPARING = {"uniquify", "union"}              # compare items: integers, rows of integers, strings
+HASHING = {"uniq_mask"}                        # put items in a set: integers, strings
+SUMMING = {"map_sum", "filter_mod"}            # look inside finite nested integers
+# stages that never look inside an item: applicable to strings, to structures of strings and to infinite rows
+STRUCTURAL = {"zip_l", "zip_r", "zip_fin_l", "zip_fin_r", "prefixes", "windows", "chunks", "flatten", "flatten_by", "enumerate",
+              "prepend", "append", "append_list", "merge_fin", "slice", "stride", "uninterleave", "head_remove",
+              "insert_at", "remove_at"}
+KEEPS_ITEMS = {"slice", "stride", "uninterleave", "head_remove", "remove_at", "uniquify", "union", "append", "append_list"}
+RELATIVE = {"filter_mod", "uniquify", "union", "truthy", "group", "flatten", "flatten1", "flatten_by", "union_fin_l", "filter_not_in"}
+START_KIND = {"int": "int", "str": "str", "rows": "rows", "inf": "inf"}
 
 
 def applicable(stage, kind):
+    """kinds of a stream: int, rows (finite lists of integers), deep (other finite structures of integers),
+    str (strings), sdeep (structures containing strings), inf (structures containing infinite rows)."""
     name = stage[0]
-    if name in INT_ONLY:
+    if kind in ("inf", "sdeep"):
+        return name in STRUCTURAL
+    if kind == "str":
+        return name in STRUCTURAL or name in COMPARING or name in HASHING
+    if name in INT_ONLY or name in HASHING:
         return kind == "int"
     if name in ROWS_ONLY:
         return kind == "rows"
-    if name in INT_OR_ROWS:
+    if name in INT_OR_ROWS or name in COMPARING:
         return kind in ("int", "rows")
     return True
 
 
 def kind_after(stage, kind):
     name = stage[0]
+    if kind == "inf":
+        return "inf"
+    if kind in ("str", "sdeep"):
+        if name in KEEPS_ITEMS or (kind == "str" and name in ("chunks", "flatten", "flatten_by")):
+            return kind                         # chunks of strings are joined back into strings
+        return "int" if name == "uniq_mask" else "sdeep"
     if name in ("map_sum", "flatten", "flatten1", "vec_sum", "truthy", "uniq_mask"):
         return "int"
+    if name == "flatten_by":
+        return "int" if kind == "int" or (kind == "rows" and stage[1] >= 1) else kind
     if name in ("zip_l", "zip_r", "zip_fin_l", "zip_fin_r", "prefixes", "windows", "chunks", "group"):
         return "rows" if kind == "int" else "deep"
     if name == "enumerate":
@@ -143,6 +211,8 @@ def apply_stage(stage, L, ctx):
         return E.deep_flatten(L, ctx)
     if name == "flatten1":
         return E.flatten_by(L, 1, ctx)
+    if name == "flatten_by":
+        return E.flatten_by(L, p[0], ctx)
     if name == "uniquify":
         return E.uniquify(L, ctx)
     if name == "union":
@@ -258,12 +328,35 @@ def coq_stage(stage):
         "sub_fin_l": lambda: f"SSubFinL {zl(p[0])}", "sub_fin_r": lambda: f"SSubFinR {zl(p[0])}",
         "interleave_fin_r": lambda: f"SInterleaveFinR {zl(p[0])}", "union_fin_l": lambda: f"SUnionFinL {zl(p[0])}",
         "filter_not_in": lambda: f"SFilterNotIn {zl(p[0])}", "append_list": lambda: "SAppend",
+        "flatten_by": lambda: f"SFlattenBy {p[0]}",
     }[name]()
 
 
 # ---- reference: the mathematical transformation of a finite prefix, written with
 # comprehensions (independent of the generators and of the model).  Every output listed
 # is determined by the prefix alone; no output the infinite stream would not have.
+FLAT_BUDGET = 8192   # an infinite row never ends: the reference lists this many flattened items (a valid prefix)
+
+
+def flat_ref(seq, depth):
+    """Items of seq with `depth` levels of list structure removed (None: all levels);
+    strings are items, infinite rows are lists."""
+    for item in seq:
+        if isinstance(item, InfRow):
+            sub = item.items()
+        elif isinstance(item, list):
+            sub = item
+        else:
+            yield item
+            continue
+        if depth is None:
+            yield from flat_ref(sub, None)
+        elif depth == 1:
+            yield from sub
+        else:
+            yield from flat_ref(sub, depth - 1)
+
+
 def ref_stage(stage, l):
     name, p = stage[0], stage[1:]
     n = len(l)
@@ -294,11 +387,14 @@ def ref_stage(stage, l):
     if name == "windows":
         return [l[i:i + p[0]] for i in range(n - p[0] + 1)]
     if name == "chunks":
-        return [l[i * p[0]:(i + 1) * p[0]] for i in range(n // p[0])]
+        cs = [l[i * p[0]:(i + 1) * p[0]] for i in range(n // p[0])]
+        return ["".join(ch) if all(isinstance(x, str) for x in ch) else ch for ch in cs]
     if name == "flatten":
-        return [z for x in l for z in rleaves(x)]
+        return list(itertools.islice(flat_ref(l, None), FLAT_BUDGET))
     if name == "flatten1":
         return [z for x in l for z in (x if isinstance(x, list) else [x])]
+    if name == "flatten_by":
+        return l if p[0] == 0 else list(itertools.islice(flat_ref(l, p[0]), FLAT_BUDGET))
     if name in ("uniquify", "union"):
         return [x for i, x in enumerate(l) if x not in l[:i]]
     if name == "uniq_mask":
@@ -401,14 +497,14 @@ def need(stage, n, inp):
     return a * n + b
 
 
-def expectations(table, c, stages, N):
+def expectations(src, stages, N):
     """For every n <= N: (bound on the pulls of the source, expected outputs), or None if
     the n-th output does not exist within the first LMAX source items."""
     out = {}
     length = 128
     todo = list(range(N + 1))
     while todo:
-        streams = [[src_value(table, c, i) for i in range(length)]]
+        streams = [[src_ref(src, i) for i in range(length)]]
         for s in stages:
             streams.append(ref_stage(s, streams[-1]))
         later = []
@@ -420,7 +516,7 @@ def expectations(table, c, stages, N):
                     k = None
                     break
             if k is not None and len(streams[-1]) >= n:
-                out[n] = (k, streams[-1][:n])
+                out[n] = (k, render(streams[-1][:n]))
             else:
                 later.append(n)
         if length >= LMAX:
@@ -438,8 +534,15 @@ def expectations(table, c, stages, N):
 
 def force(x):
     from vyxal.LazyList import LazyList
-    if isinstance(x, (LazyList, list, tuple)):
+    if isinstance(x, LazyList):
+        head = list(itertools.islice(iter(x), PROBE + 1))
+        if len(head) > PROBE:                  # longer than any finite inner list of the catalogue: an infinite row
+            return ["∞"] + [force(y) for y in head[:INNER]]
+        return [force(y) for y in head]
+    if isinstance(x, (list, tuple)):
         return [force(y) for y in x]
+    if isinstance(x, str):
+        return x
     if isinstance(x, bool):
         return int(x)
     if isinstance(x, int):
@@ -450,18 +553,18 @@ def force(x):
             return int(x)
     except Exception:  # noqa: BLE001
         pass
-    return "?" + type(x).__name__ + ":" + repr(x)[:40]
+    return "?<" + type(x).__name__ + ":" + repr(x)[:40]
 
 
 def measure(item):
-    """item = (table, c, stages, n, mode) -> (pulls, outputs)."""
-    table, c, stages, n, mode = item
+    """item = (source, stages, n, mode) -> (pulls, outputs)."""
+    srcspec, stages, n, mode = item
     V.import_repo()
     import vyxal.elements  # noqa: F401  (import order: elements before LazyList)
     from vyxal.LazyList import LazyList
     from vyxal.context import Context
     ctx = Context()
-    src = Source(table, c)
+    src = Source(srcspec)
     L = LazyList(src.gen(), isinf=True)
     for s in stages:
         L = apply_stage(s, L, ctx)
@@ -495,6 +598,8 @@ def measure(item):
     else:
         raise KeyError(mode)
     pulls = src.pulls
+    if mode in ("islice", "index", "slice", "slice1", "slice_nn", "elem_index", "zero_slice", "one_slice"):
+        return (pulls, [force(y) for y in out])     # the taken prefix itself is finite: never abbreviated
     return (pulls, force(out))
 
 
@@ -532,28 +637,34 @@ def take_expectation(mode, n, prim):
 # case generation
 # ----------------------------------------------------------------------------
 
+# Every numeric / structural parameter is drawn from 0, 1, 2, 3 and from values beyond what the stream offers
+# (a depth deeper than any nesting, an index beyond the n that are taken, a finite operand that is empty, of one
+# item, shorter than n); size 0 of windows/chunks is outside the quantifier.
+FINS = ((), (10,), (10, 20, 30))
+PARAMS = {
+    "map_affine": [(3, 1)], "map_sum": [()], "filter_mod": [(2, 0), (3, 1)],
+    "zip_l": [(100,)], "zip_r": [(100,)], "interleave_l": [(100,)], "interleave_r": [(100,)],
+    "interleave_fin": [(f,) for f in FINS], "interleave_fin_r": [(f,) for f in FINS],
+    "prefixes": [()], "cumsum": [()], "deltas": [()],
+    "windows": [(1,), (2,), (3,), (5,)], "chunks": [(1,), (2,), (3,), (7,)],
+    "flatten": [()], "flatten1": [()], "flatten_by": [(0,), (1,), (2,), (3,)],
+    "uniquify": [()], "union": [((),), ((1, 2, 3),)], "uniq_mask": [()], "enumerate": [()],
+    "prepend": [(77,)], "append": [(77,)], "merge_fin": [((),), ((70, 71),)], "append_list": [((70, 71),)],
+    "slice": [(0,), (1,), (2,), (3,), (9,)], "stride": [(a, st) for a in (0, 1, 2, 3) for st in (1, 2, 3)],
+    "uninterleave": [(0,), (1,)], "head_remove": [()],
+    "add_scalar": [(7,)], "add_scalar_l": [(7,)], "multiply": [(2,)], "subtract": [(5,)], "negate": [()], "add_list": [(100,)],
+    "vec_sum": [()], "group": [()],
+    "insert_at": [(q, 55) for q in (0, 1, 2, 3, 9)], "remove_at": [(q,) for q in (0, 1, 2, 3, 9)],
+    "truthy": [()], "map_nth": [(1,), (2,), (3,)], "map_alt": [()],
+    "zip_fin_l": [(f,) for f in FINS], "zip_fin_r": [(f,) for f in FINS],
+    "add_fin_l": [(f,) for f in FINS[1:]], "add_fin_r": [(f,) for f in FINS[1:]],
+    "mul_fin_l": [((2, 3),)], "mul_fin_r": [((2, 3),)], "sub_fin_l": [((10, 20, 30),)], "sub_fin_r": [((10, 20, 30),)],
+    "union_fin_l": [((1, 2, 3),)], "filter_not_in": [((),), ((1, 2, 3),)],
+}
+
+
 def catalogue():
-    return [
-        ("map_affine", 3, 1), ("map_sum",), ("filter_mod", 2, 0), ("filter_mod", 3, 1),
-        ("zip_l", 100), ("zip_r", 100), ("interleave_l", 100), ("interleave_r", 100),
-        ("interleave_fin", (70, 71, 72)), ("interleave_fin", ()),
-        ("prefixes",), ("cumsum",), ("deltas",),
-        ("windows", 1), ("windows", 2), ("windows", 3), ("windows", 5),
-        ("chunks", 1), ("chunks", 2), ("chunks", 3),
-        ("flatten",), ("flatten1",), ("uniquify",), ("union", (1, 2, 3)), ("uniq_mask",), ("enumerate",),
-        ("prepend", 77), ("append", 77), ("merge_fin", (70, 71)),
-        ("slice", 0), ("slice", 1), ("slice", 4), ("stride", 0, 1), ("stride", 1, 3), ("stride", 2, 2),
-        ("uninterleave", 0), ("uninterleave", 1), ("head_remove",),
-        ("add_scalar", 7), ("add_scalar_l", 7), ("multiply", 2), ("subtract", 5), ("negate",), ("add_list", 100),
-        ("group",), ("insert_at", 0, 55), ("insert_at", 2, 55), ("remove_at", 0), ("remove_at", 2),
-        ("truthy",), ("map_nth", 2), ("map_alt",),
-        # a finite operand with the infinite source, in both arrangements (n runs over both sides of its length)
-        ("zip_fin_l", (10, 20, 30)), ("zip_fin_r", (10, 20, 30)), ("zip_fin_l", (10,)), ("zip_fin_r", (10,)),
-        ("add_fin_l", (10, 20, 30)), ("add_fin_r", (10, 20, 30)), ("mul_fin_l", (2, 3)), ("mul_fin_r", (2, 3)),
-        ("sub_fin_l", (10, 20, 30)), ("sub_fin_r", (10, 20, 30)),
-        ("interleave_fin_r", (70, 71, 72)), ("interleave_fin_r", (70,)),
-        ("union_fin_l", (1, 2, 3)), ("filter_not_in", (1, 2, 3)), ("append_list", (70, 71)),
-    ]
+    return [(name,) + ps for name, space in PARAMS.items() for ps in space]
 
 
 def sname(stage):
@@ -565,25 +676,34 @@ def pname(stages):
 
 
 def make_sources(rng):
+    t1 = tuple(rng.randrange(0, 10) for _ in range(11))
+    t2 = tuple(rng.randrange(-5, 6) for _ in range(7))
     return [
-        (tuple(rng.randrange(0, 10) for _ in range(11)), 1),     # repeats inside a period, grows by 1 per period
-        (tuple(rng.randrange(-5, 6) for _ in range(7)), 3),      # negative values, zeros, grows by 3
-        ((0,), 1),                                               # 0 1 2 3 ...: pairwise distinct
+        (t1, 1, "int"),         # repeats inside a period, grows by 1 per period
+        (t2, 3, "int"),         # negative values, zeros, grows by 3
+        ((0,), 1, "int"),       # 0 1 2 3 ...: pairwise distinct
+        (t1, 1, "str"),         # an infinite list made only of strings
+        (t1, 1, "rows"),        # an infinite list of finite rows of length 0..3
+        ((0,), 1, "inf"),       # an infinite list of infinite lists
     ]
 
 
-def random_pipeline(rng, cat, length):
-    """A type-correct pipeline of `length` stages; at most one `prefixes`, modest sizes."""
+def random_pipeline(rng, cat, length, kind):
+    """A type-correct pipeline of `length` stages on a stream of the given kind; parameters are drawn from the
+    whole parameter space of the stage; at most one `prefixes`, and sizes whose product stays modest."""
+    names = sorted({s[0] for s in cat})
     for _ in range(200):
-        kind, stages = "int", []
+        k, stages, size = kind, [], 1
         for _ in range(length):
-            options = [s for s in cat if applicable(s, kind)
-                       and not (s[0] == "prefixes" and any(t[0] in ("prefixes",) for t in stages))
-                       and not (s[0] in ("windows", "chunks") and s[1] > 3)]
-            s = rng.choice(options)
+            options = [nm for nm in names if any(applicable(s, k) for s in cat if s[0] == nm)
+                       and not (nm == "prefixes" and any(t[0] == "prefixes" for t in stages))]
+            nm = rng.choice(options)
+            s = rng.choice([s for s in cat if s[0] == nm and applicable(s, k)])
+            if nm in ("chunks", "stride"):
+                size *= s[-1]
             stages.append(s)
-            kind = kind_after(s, kind)
-        if len(stages) == length:
+            k = kind_after(s, k)
+        if size <= 27:
             return tuple(stages)
     raise RuntimeError("no pipeline")
 
@@ -626,76 +746,86 @@ def fit(points):
 
 def probes_outside(env):
     """Calls that cannot be lazy by their parameters or by construction; recorded, not judged."""
-    items = [((0,), 1, (("windows", 0),), 1, "islice"), ((0,), 1, (("chunks", 0),), 1, "islice"),
-             ((0,), 1, (("cumsum_sans_last",),), 1, "islice"), ((0,), 1, (("tail_remove",),), 1, "islice"),
-             ((0,), 1, (("pair_with", 5),), 1, "islice")]
+    nat = ((0,), 1, "int")
+    items = [(nat, (("windows", 0),), 1, "islice"), (nat, (("chunks", 0),), 1, "islice"),
+             (nat, (("cumsum_sans_last",),), 1, "islice"), (nat, (("tail_remove",),), 1, "islice"),
+             (nat, (("pair_with", 5),), 1, "islice")]
     res = V.pmap(measure, items, timeout=10.0)
     out = {}
     for it, (st, val) in zip(items, res):
-        out[pname(it[2])] = "terminates" if st == "ok" else f"does not terminate ({st}: {val})"
+        out[pname(it[1])] = "terminates" if st == "ok" else f"does not terminate ({st}: {val})"
     env.note("outside_the_quantifier", out)
 
 
-def judge(env, entries, results, cases, formula, hung):
-    """Oracle on one batch of measurements; fills cases (for the model) and hung (stages that did not terminate)."""
-    for idx, ((t, c, pl, n), (bound, expected)) in enumerate(entries):
-        inp = {"source": {"table": list(t), "shift": c}, "pipeline": [list(map(_jsonable, s)) for s in pl], "n": n}
+def has_marker(x):
+    return any(has_marker(y) for y in x) if isinstance(x, list) else (isinstance(x, str) and x.startswith("?<"))
+
+
+def judge(env, entries, results, cases, prim, formula, hung):
+    """Oracle on one batch of measurements; fills prim (what iteration pulls and yields), cases (integer sources,
+    for the model) and hung (stages that did not terminate)."""
+    for idx, ((src, pl, n), (bound, expected)) in enumerate(entries):
+        inp = {"source": src_json(src), "pipeline": [list(map(_jsonable, s)) for s in pl], "n": n}
         name = pname(pl)
+        on = "" if src[2] == "int" else {"str": " of strings", "rows": " of finite rows", "inf": " of infinite lists"}[src[2]]
+        tag = name if src[2] == "int" else f"{name}@{src[2]}"
         got = {}
         for mode, (st, val) in zip(("islice", "index"), results[2 * idx:2 * idx + 2]):
             if st == "timeout" or (st == "exc" and str(val).startswith("Runaway")):
                 how = "does not terminate (watchdog)" if st == "timeout" else f"pulled more than {CAP} items of the source (bound {bound})"
-                env.fail(dict(inp, mode=mode), f"taking {n} items of {name} of an infinite list {how}", cls=f"nonterminating:{name}")
+                env.fail(dict(inp, mode=mode), f"taking {n} items of {name} of an infinite list{on} {how}", cls=f"nonterminating:{tag}")
                 if len(pl) == 1:
-                    hung.add(name)
+                    hung.add((name, src[2]))
             elif st == "exc":
-                env.fail(dict(inp, mode=mode), f"taking {n} items of {name} raises {val}", cls=f"raises:{name}")
+                env.fail(dict(inp, mode=mode), f"taking {n} items of {name} of an infinite list{on} raises {val}", cls=f"raises:{tag}")
             elif val[0] == "not-lazy":
-                env.fail(dict(inp, mode=mode), f"{name} of an infinite list returned a {val[1]}, not a lazy list", cls=f"not-lazy:{name}")
+                env.fail(dict(inp, mode=mode), f"{name} of an infinite list{on} returned a {val[1]}, not a lazy list", cls=f"not-lazy:{tag}")
             else:
                 got[mode] = val
                 pulls, outs = val
                 if pulls > bound:
-                    env.fail(dict(inp, mode=mode), f"{name}: {n} items pulled {pulls} items of the source, bound {bound}",
-                             cls=f"pulls-exceed:{name}", extra={"pulls": pulls, "bound": bound})
+                    env.fail(dict(inp, mode=mode), f"{name}: {n} items pulled {pulls} items of the source{on}, bound {bound}",
+                             cls=f"pulls-exceed:{tag}", extra={"pulls": pulls, "bound": bound})
                 if outs != expected:
                     env.fail(dict(inp, mode=mode), f"{name}: first {n} items are {str(outs)[:200]}, mathematically {str(expected)[:200]}",
-                             cls=f"outputs:{name}")
+                             cls=f"outputs:{tag}")
         if len(got) == 2:
             if got["islice"] != got["index"]:
-                env.fail(inp, f"{name}: iteration pulls {got['islice'][0]}, indexing pulls {got['index'][0]}", cls=f"modes-differ:{name}")
+                env.fail(inp, f"{name}: iteration pulls {got['islice'][0]}, indexing pulls {got['index'][0]}", cls=f"modes-differ:{tag}")
             pulls, outs = got["islice"]
-            if not any(isinstance(x, str) for x in rleaves(outs)):
-                cases.append((t, c, pl, n, pulls, outs))
+            prim.setdefault((src, pl), {})[n] = (pulls, outs)
+            if src[2] == "int" and not has_marker(outs):
+                cases.append((src, pl, n, pulls, outs))
             if len(pl) == 1:
-                formula.setdefault(name, {}).setdefault(str(list(t)) + "+" + str(c), []).append((n, pulls))
+                formula.setdefault(tag, {}).setdefault(str(list(src[0])) + "+" + str(src[1]), []).append((n, pulls))
 
 
 def judge_takes(env, items, results, prim, hung_modes):
     n_checked = 0
     fails = {}
-    for (t, c, pl, n, mode), (st, val) in zip(items, results):
-        want = take_expectation(mode, n, prim.get((t, c, pl), {}))
+    for (src, pl, n, mode), (st, val) in zip(items, results):
+        want = take_expectation(mode, n, prim.get((src, pl), {}))
         if want is None:
             continue
         n_checked += 1
         name = pname(pl)
+        tag = name if src[2] == "int" else f"{name}@{src[2]}"
         what = MODE_TEXT[mode].replace("n", str(n)) if mode in TAKE_MODES else MODE_TEXT[mode]
-        inp = {"source": {"table": list(t), "shift": c}, "pipeline": [list(map(_jsonable, s)) for s in pl], "n": n, "take": what}
+        inp = {"source": src_json(src), "pipeline": [list(map(_jsonable, s)) for s in pl], "n": n, "take": what}
         bad = None
         if st == "timeout" or (st == "exc" and str(val).startswith("Runaway")):
             how = "does not terminate (watchdog)" if st == "timeout" else f"pulled more than {CAP} items of the source"
             bad = f"{what} on L = {name} of an infinite list {how}; taking the same prefix by iteration pulls {want[0]}"
-            cls = f"nonterminating-take:{mode}:{name}"
+            cls = f"nonterminating-take:{mode}:{tag}"
             fails[mode] = fails.get(mode, 0) + 1
         elif st == "exc":
-            bad, cls = f"{what} on L = {name} raises {val}", f"raises-take:{mode}:{name}"
+            bad, cls = f"{what} on L = {name} raises {val}", f"raises-take:{mode}:{tag}"
         elif val[0] == "not-lazy":
             continue
         elif val[0] != want[0]:
-            bad, cls = f"{what} on L = {name} pulled {val[0]} items of the source, iteration pulls {want[0]}", f"pulls-take:{mode}:{name}"
+            bad, cls = f"{what} on L = {name} pulled {val[0]} items of the source, iteration pulls {want[0]}", f"pulls-take:{mode}:{tag}"
         elif val[1] != want[1]:
-            bad, cls = f"{what} on L = {name} gives {str(val[1])[:160]}, expected {str(want[1])[:160]}", f"outputs-take:{mode}:{name}"
+            bad, cls = f"{what} on L = {name} gives {str(val[1])[:160]}, expected {str(want[1])[:160]}", f"outputs-take:{mode}:{tag}"
         if bad:
             env.fail(inp, bad, cls=cls)
     for mode, k in fails.items():
@@ -709,98 +839,108 @@ def run_all(env, with_model=True):
     N = env.budget(12, 40)
     cat = catalogue()
     sources = make_sources(rng)
-    pipelines = [(s,) for s in cat]
-    ncomp = env.budget(120, 900)
-    seen = set(pipelines)
+    # singles: every stage with every parameter of its space, on every source whose items it applies to, all n <= N
+    jobs = []            # (source, stages, N)
+    for src in sources:
+        for s in cat:
+            if applicable(s, START_KIND[src[2]]):
+                jobs.append((src, (s,), N))
+    nsingle = len(jobs)
+    # compositions: random type-correct pipelines of 2 and 3 stages with random parameters, on a random source, all n <= N
+    ncomp = env.budget(180, 1000)
+    seen = set()
     for i in range(ncomp):
-        pl = random_pipeline(rng, cat, 2 if i % 3 == 0 else 3)
-        if pl not in seen:
-            seen.add(pl)
-            pipelines.append(pl)
-    # singles: all n <= N on every source; compositions: all n <= N on one source each
-    jobs = []            # (table, c, stages, N)
-    for pl in pipelines:
-        srcs = sources if len(pl) == 1 else [sources[rng.randrange(len(sources))]]
-        for (t, c) in srcs:
-            jobs.append((t, c, pl, N))
+        src = sources[rng.randrange(len(sources))]
+        pl = random_pipeline(rng, cat, 2 if i % 3 == 0 else 3, START_KIND[src[2]])
+        if (src, pl) not in seen:
+            seen.add((src, pl))
+            jobs.append((src, pl, N))
     # expectations (reference + bounds), inadmissible cases dropped
+    t0 = time.time()
     exps = V.pmap(_expect, jobs, timeout=300.0)
+    V.log(f"[C14] reference: {len(jobs)} pipelines, {time.time()-t0:.1f}s")
     admissible, skipped = [], 0
-    for (t, c, pl, _), (st, es) in zip(jobs, exps):
+    for (src, pl, _), (st, es) in zip(jobs, exps):
         if st != "ok":
-            env.proof_broken("reference evaluation failed", f"{pname(pl)}: {st} {es}")
+            env.proof_broken("reference evaluation failed", f"{pname(pl)} on {src_json(src)}: {st} {es}")
             continue
         for n, e in enumerate(es):
             if e is None:
                 skipped += 1
             else:
-                admissible.append(((t, c, pl, n), e))
+                admissible.append(((src, pl, n), e))
     # measured in three batches so that a stage that hangs is not waited for again and again
-    batches = [[e for e in admissible if len(e[0][2]) == 1 and e[0][3] <= 3],
-               [e for e in admissible if len(e[0][2]) == 1 and e[0][3] > 3],
-               [e for e in admissible if len(e[0][2]) > 1]]
-    cases, formula, hung, measured, not_rerun = [], {}, set(), [], 0
+    batches = [[e for e in admissible if len(e[0][1]) == 1 and e[0][2] <= 3],
+               [e for e in admissible if len(e[0][1]) == 1 and e[0][2] > 3],
+               [e for e in admissible if len(e[0][1]) > 1]]
+    cases, prim, formula, hung, measured, not_rerun = [], {}, {}, set(), [], 0
+
+    def hangs(src, pl):
+        return any((sname(s), src[2]) in hung for s in pl)
+
     for batch in batches:
-        entries = [e for e in batch if not any(sname(s) in hung for s in e[0][2])]
-        entries.sort(key=lambda e: (e[0][3], e[0][0], e[0][1]))   # one stage's cases far apart: a hanging stage is waited for in parallel
+        entries = [e for e in batch if not hangs(e[0][0], e[0][1])]
+        entries.sort(key=lambda e: (e[0][2], e[0][0]))   # one stage's cases far apart: a hanging stage is waited for in parallel
         not_rerun += len(batch) - len(entries)
-        items = [(t, c, pl, n, mode) for ((t, c, pl, n), _) in entries for mode in ("islice", "index")]
+        items = [(src, pl, n, mode) for ((src, pl, n), _) in entries for mode in ("islice", "index")]
         res = V.pmap(measure, items, timeout=env.budget(6.0, 12.0))
-        judge(env, entries, res, cases, formula, hung)
+        judge(env, entries, res, cases, prim, formula, hung)
+        V.log(f"[C14] measured {len(items)} ({time.time()-t0:.1f}s)")
         measured += items
     # every other way of taking a prefix (bounded slices, the slicing elements) for n on both sides of
     # the boundaries, and has_ind / index with boundary arguments: same pulls and items as iteration
-    prim = {}
-    for (t, c, pl, n, pulls, outs) in cases:
-        prim.setdefault((t, c, pl), {})[n] = (pulls, outs)
-    combos = sorted(prim, key=lambda k: (len(k[2]), pname(k[2]), k[0], k[1]))
-    combos = [k for k in combos if not any(sname(s) in hung for s in k[2])]
-    first = [k for k in combos if len(k[2]) == 1 and k[0] == sources[0][0]]
+    combos = sorted(prim, key=lambda k: (len(k[1]), pname(k[1]), k[0]))
+    combos = [k for k in combos if not hangs(k[0], k[1])]
+    first = [k for k in combos if len(k[1]) == 1 and k[0] == sources[0]]
     rest = [k for k in combos if k not in set(first)]
     take_ns = (0, 1, 2, 5)
     hung_modes, takes_checked, takes = set(), 0, []
     for group in (first, rest):
-        items = [(t, c, pl, n, mode) for n in take_ns for mode in TAKE_MODES if mode not in hung_modes for (t, c, pl) in group]
-        items += [(t, c, pl, 0, mode) for mode in BOUNDARY_MODES if mode not in hung_modes for (t, c, pl) in group]
+        items = [(src, pl, n, mode) for n in take_ns for mode in TAKE_MODES if mode not in hung_modes for (src, pl) in group]
+        items += [(src, pl, 0, mode) for mode in BOUNDARY_MODES if mode not in hung_modes for (src, pl) in group]
         res = V.pmap(measure, items, timeout=env.budget(6.0, 12.0))
         takes_checked += judge_takes(env, items, res, prim, hung_modes)
+        V.log(f"[C14] other ways of taking: {len(items)} ({time.time()-t0:.1f}s)")
         takes += items
     env.note("prefix_taking", {"ways": [MODE_TEXT[m] for m in TAKE_MODES + BOUNDARY_MODES], "n": list(take_ns),
                                "checked_against_iteration": takes_checked,
                                "ways_that_hung_and_were_not_repeated": sorted(hung_modes)})
     measured += takes
-    env.count(len(measured), (f"{t}+{c}:{pname(pl)}:{n}:{m}" for (t, c, pl, n, m) in measured if n >= 1 or m not in ("islice", "index")))
+    env.count(len(measured), (f"{src}:{pname(pl)}:{n}:{m}" for (src, pl, n, m) in measured if n >= 1 or m not in ("islice", "index")))
     env.note("n_max", N)
-    env.note("pipelines", {"single": len(cat), "compositions": len(pipelines) - len(cat),
-                           "of_length_2": sum(1 for p in pipelines if len(p) == 2), "of_length_3": sum(1 for p in pipelines if len(p) == 3)})
+    comps = [j for j in jobs[nsingle:]]
+    env.note("pipelines", {"single_stage_with_parameters": len(cat), "single_on_a_source": nsingle, "compositions": len(comps),
+                           "of_length_2": sum(1 for j in comps if len(j[1]) == 2), "of_length_3": sum(1 for j in comps if len(j[1]) == 3),
+                           "by_source_shape": {sh: sum(1 for j in jobs if j[0][2] == sh) for sh in ("int", "str", "rows", "inf")}})
+    env.note("parameter_spaces", {k: [list(map(_jsonable, ps)) for ps in v] for k, v in PARAMS.items() if v != [()]})
     env.note("inadmissible_skipped", skipped)
     if hung:
-        env.note("stages_that_did_not_terminate", sorted(hung))
+        env.note("stages_that_did_not_terminate", sorted(f"{a}@{b}" for a, b in hung))
         env.note("cases_not_run_because_a_stage_hangs", not_rerun)
-    env.note("sources", [{"table": list(t), "shift": c} for t, c in sources])
+    env.note("sources", [src_json(x) for x in sources])
     env.note("measured_formula", {k: sorted({fit(v) for v in d.values()}) for k, d in sorted(formula.items())})
     comp_formula = {}
-    for (t, c, pl, n, pulls, outs) in cases:
+    for (src, pl, n, pulls, outs) in cases:
         if len(pl) > 1:
             comp_formula.setdefault(pname(pl), []).append((n, pulls))
     env.note("measured_formula_compositions_sample", {k: fit(v) for k, v in list(sorted(comp_formula.items()))[:25]})
-    picks = [cs for cs in cases if cs[3] == min(N, 7)]
-    for cse in picks[::max(1, len(picks) // 8)][:8]:
-        t, c, pl, n, pulls, outs = cse
-        env.sample({"source": {"table": list(t), "shift": c}, "pipeline": pname(pl), "n": n, "pulls": pulls, "outputs": str(outs)[:160]})
-    # model side
+    picks = [(k, v[min(N, 7)]) for k, v in sorted(prim.items(), key=lambda kv: (pname(kv[0][1]), kv[0][0])) if min(N, 7) in v]
+    for (src, pl), (pulls, outs) in picks[::max(1, len(picks) // 10)][:10]:
+        env.sample({"source": src_json(src), "pipeline": pname(pl), "n": min(N, 7), "pulls": pulls, "outputs": str(outs)[:160]})
+    # model side (integer sources)
     if with_model and cases:
         ok, bad, logs = env.coq_mismatches(
             "demand", PREAMBLE,
-            lambda lo, hi: "[" + ";\n ".join(coq_case(*cs) for cs in cases[lo:hi]) + "]",
+            lambda lo, hi: "[" + ";\n ".join(coq_case(cs[0][0], cs[0][1], *cs[1:]) for cs in cases[lo:hi]) + "]",
             CHECKER, len(cases), shard=env.budget(250, 400), timeout=1500)
         if not ok:
             env.proof_broken("demand correspondence cases failed to evaluate", logs)
         for i in bad[:40]:
-            t, c, pl, n, pulls, outs = cases[i]
-            env.disagree("demand:" + pname(pl), {"source": {"table": list(t), "shift": c}, "pipeline": pname(pl), "n": n},
+            src, pl, n, pulls, outs = cases[i]
+            env.disagree("demand:" + pname(pl), {"source": src_json(src), "pipeline": pname(pl), "n": n},
                          model_answer(env, cases[i]) if i in bad[:6] else "(model disagrees)", {"pulls": pulls, "outputs": str(outs)[:300]})
         env.note("model_cases", len(cases))
+        V.log(f"[C14] model: {len(cases)} cases ({time.time()-t0:.1f}s)")
     probes_outside(env)
 
 
@@ -809,12 +949,12 @@ def _jsonable(x):
 
 
 def _expect(job):
-    t, c, pl, N = job
-    return expectations(t, c, pl, N)
+    src, pl, N = job
+    return expectations(src, pl, N)
 
 
 def model_answer(env, case):
-    t, c, pl, n, pulls, outs = case
+    (t, c, _shape), pl, n, pulls, outs = case
     tl = V.clist([V.cZ(x) for x in t], "Z")
     rest = V.clist(["(" + coq_stage(s) + ")" for s in pl[1:]], "stage")
     text = (PREAMBLE + f"Eval vm_compute in (run_until (pipeline ({coq_stage(pl[0])}) {rest}) "
@@ -827,18 +967,21 @@ def model_answer(env, case):
 
 
 RULE = ("instrumented infinite source (generator counting its resumptions, wrapped in LazyList(..., isinf=True)) pushed through the real "
-        "element functions; every catalogued transformation (67 parametrised stages: map, filter by predicate / by membership, zip and the dyadic "
-        "vectorised + - * in every operand arrangement (source with an infinite list, source with a finite list on the left and on the right, "
-        "zero fill after the finite operand ends), interleave with an infinite/finite list on either side, union on either side, prefixes, "
-        "cumulative sums, deltas, windows k=1,2,3,5, chunks k=1,2,3, deep/shallow flatten, uniquify, uniquify mask, enumerate, prepend, append, "
-        "merge with a finite list on either side, slice from 0/1/4, every n-th, uninterleave, head remove, vectorised sum, group consecutive, "
-        "insert/remove at, truthy indices, map every n-th / every second) on 3 sources, and random type-correct compositions of 2 and 3 stages "
-        "on one source each, for ALL n from 0 to 12 (quick) / 40 (thorough), taken by iteration and by indexing; for n in 0,1,2,5 also by "
+        "element functions.  Sources of every nesting: three flat integer sources, an infinite list made only of strings, an infinite list of "
+        "finite rows (length 0..3, empty rows included), an infinite list of infinite lists.  Every catalogued transformation with EVERY "
+        "parameter of its parameter space (recorded under parameter_spaces: sizes, offsets, positions and depths 0,1,2,3 and values beyond what "
+        "the stream offers -- flatten depth deeper than any nesting, positions beyond the n taken, finite operands that are empty / of one item / "
+        "shorter than n; 101 parametrised stages: map, filter by predicate / by membership, zip and the dyadic vectorised + - * in every operand "
+        "arrangement, interleave and union with an infinite/finite list on either side, prefixes, cumulative sums, deltas, windows, chunks, "
+        "deep flatten, flatten by depth, uniquify, uniquify mask, enumerate, prepend, append, merge with a finite list on either side, slice from "
+        "an offset, every n-th, uninterleave, head remove, vectorised sum, group consecutive, insert/remove at, truthy indices, map every n-th / "
+        "every second) on every source whose items it applies to, and random type-correct compositions of 2 and 3 stages with random parameters "
+        "on a random source, for ALL n from 0 to 12 (quick) / 40 (thorough), taken by iteration and by indexing; for n in 0,1,2,5 also by "
         "L[:n], L[1:n], L[n:n], index(L,[0,n]), zero_slice, one_slice, and has_ind(0), has_ind(-1), index(L,0), which must pull and return "
         "exactly what iteration does (n = 0 and empty ranges: nothing beyond the constructor, theorem C14_zero).  Each primary measurement "
-        "(pulls, first n outputs) is compared with run_until of the pull-machine model inside Coq (exact equality), and judged by the oracle: "
-        "terminates, pulls <= bound of the theorems (composed stage by stage), outputs equal the reference transformation.  "
-        "Non-trivial = n >= 1 or a slicing/boundary way of taking; distinct by (source, pipeline, n, way).")
+        "on an integer source (pulls, first n outputs) is compared with run_until of the pull-machine model inside Coq (exact equality); every "
+        "measurement is judged by the oracle: terminates, pulls <= bound of the theorems (composed stage by stage), outputs equal the reference "
+        "transformation.  Non-trivial = n >= 1 or a slicing/boundary way of taking; distinct by (source, pipeline, n, way).")
 
 
 def run(env):
@@ -861,5 +1004,7 @@ def assumptions(env):
                "in that respect; the theorems give termination and the bound for every n on the model only" % CAP)
     env.assume("filter, uniquify, union, truthy indices, group consecutive, flatten: the bound is relative to the position of the n-th admissible "
                "item of the actual input; cases whose n-th item lies beyond the first %d source items are not run" % LMAX)
+    env.assume("sources of strings, of finite rows and of infinite lists are judged by the oracle only (reference, bounds, watchdog); the Coq model is "
+               "evaluated on the integer sources, its value universe has neither strings nor infinite inner lists")
     env.assume("windows/chunks of size 0 and transformations that need the end of the list (tail remove, ÞR) are outside the quantifier "
                "(recorded under outside_the_quantifier)")
